@@ -140,9 +140,11 @@ class Engine:
         self._fc_memo = {}
         self.bound_depth = 0
         self.typing = {}
+        self.cur_is_async = False
         self.case_tag = ''
         from . import lib
         self.lib = lib
+        from . import lib_rt  # noqa: registers run-time library contracts
 
     # -----------------------------------------------------------------------------------------
     # fresh symbols
@@ -576,6 +578,15 @@ class Engine:
         if v.ty == ty:
             return v
         k = ty.kind
+        if k == 'tup' and v.ty.kind == 'tup' and len(ty.args) == len(v.t):
+            return V(ty, tuple(self.coerce(x, t) for x, t in zip(v.t, ty.args)))
+        if k == 'rec' and v.ty.kind == 'rec' and ty.args:
+            want = dict(ty.args)
+            if set(want) != set(v.t):
+                raise EngineError('record shape mismatch: %r vs %r' % (sorted(v.t), sorted(want)))
+            return V(REC, {kk: self.coerce(v.t[kk], want[kk]) for kk in v.t})
+        if k == 'dict' and v.ty.kind == 'dict':
+            return V(ty, v.t)
         if k == 'any':
             return V(ANY, box(self.concrete_list(v, STR))) if v.ty.kind == 'list' and \
                 v.ty.args[0].kind == 'bot' else V(ANY, box(v))
@@ -759,6 +770,13 @@ class Engine:
             else:
                 yield st, self.lib.lib_attr(self, o.t[1], attr)
             return
+        if k == 'ref' and is_opt(o.ty):
+            for s2, null in self.fork(st, o.t == 0):
+                if null:
+                    yield s2, Raise('AttributeError', (), line)
+                else:
+                    yield from self.getattr(s2, V(Ref(o.ty.args[0]), o.t), attr, line)
+            return
         if k == 'ref':
             cls = o.ty.args[0]
             if self.reg.field_ty(cls, attr) is not None:
@@ -859,6 +877,8 @@ class Engine:
                 yield s1, v
             elif v.ty.kind == 'fn' and v.t[0] == 'coro':
                 yield from self.run_coro(s1, v, e.lineno)
+            elif v.ty.kind == 'fn' and v.t[0] == 'corolib':
+                yield from v.t[1](self, s1, None, e.lineno)
             else:
                 yield s1, v
 
@@ -1038,15 +1058,20 @@ class Engine:
                 else:
                     pos.append(a)
             kwn = [k.arg for k in e.keywords]
-            if any(k is None for k in kwn):
-                raise EngineError('**kwargs call at line %d' % e.lineno)
             for s2, vs in self.ev_list(pos + [k.value for k in e.keywords] +
                                        ([star] if star is not None else []), s1):
                 if isinstance(vs, Raise):
                     yield s2, vs
                     continue
                 args = vs[:len(pos)]
-                kwargs = dict(zip(kwn, vs[len(pos):len(pos) + len(kwn)]))
+                kwargs = {}
+                for kn, kv in zip(kwn, vs[len(pos):len(pos) + len(kwn)]):
+                    if kn is None:
+                        if kv.ty.kind != 'rec':
+                            raise EngineError('**kwargs of non-record at line %d' % e.lineno)
+                        kwargs.update(kv.t)
+                    else:
+                        kwargs[kn] = kv
                 if star is not None:
                     sv = vs[-1]
                     if sv.ty.kind != 'tup':
@@ -1337,12 +1362,34 @@ class Engine:
         # coerce actuals to declared parameter types
         for n, ty in c.params.items():
             if isinstance(ty, list) and n in penv:
-                match = [t for t in ty if t.kind == penv[n].ty.kind]
-                if not match:
+                match = None
+                for t in ty:
+                    if t.kind != penv[n].ty.kind:
+                        continue
+                    try:
+                        self.coerce(penv[n], t)
+                    except (EngineError, TypeError):
+                        continue
+                    match = t
+                    break
+                if match is None:
                     raise EngineError('actual %r for %s.%s matches none of %r'
                                       % (penv[n].ty, full, n, ty))
-                ty = match[0]
+                ty = match
             if n in penv and penv[n].ty != ty:
+                src = penv[n]
+                if is_opt(src.ty) and ty.kind == 'ref' and not is_opt(ty):
+                    self.oblige(st, 'pre@callsite', '%s:%s-not-None' % (full, n), src.t != 0,
+                                props=c.props, line=line)
+                if src.ty.kind == 'list' and is_opt(src.ty.args[0]) and ty.kind == 'list' \
+                        and ty.args[0].kind == 'ref' and not is_opt(ty.args[0]):
+                    k = z3.Int(self.name('q_nn'))
+                    g = z3.ForAll([k], z3.Implies(z3.And(k >= 0, k < z3.Length(src.t)),
+                                                  src.t[k] != 0))
+                    self.quants[g.get_id()] = (g, [k], [k >= 0, k < z3.Length(src.t)],
+                                               src.t[k] != 0)
+                    self.oblige(st, 'pre@callsite', '%s:%s-no-None-elements' % (full, n), g,
+                                props=c.props, line=line)
                 try:
                     penv[n] = self.coerce(penv[n], ty)
                 except EngineError:
@@ -1599,9 +1646,12 @@ class Engine:
                 isinstance(test.left, ast.Name) and isinstance(test.comparators[0], ast.Constant) \
                 and test.comparators[0].value is None and test.left.id in st.env:
             v = st.env[test.left.id]
-            if v.ty.kind == 'any' and (isinstance(test.ops[0], ast.Is) and side or
-                                       isinstance(test.ops[0], ast.IsNot) and not side):
+            isnone = (isinstance(test.ops[0], ast.Is) and side or
+                      isinstance(test.ops[0], ast.IsNot) and not side)
+            if v.ty.kind == 'any' and isnone:
                 self.setlocal(st, test.left.id, VNONE)
+            if is_opt(v.ty) and not isnone:
+                self.setlocal(st, test.left.id, V(Ref(v.ty.args[0]), v.t))
 
     def ex_If(self, s, st):
         for s1, c in self.ev(s.test, st):
@@ -1645,6 +1695,8 @@ class Engine:
         v = vals[0]
         if v.ty.kind == 'fn' and v.t[0] in ('class', 'excclass'):
             return [v.t[-1]]
+        if v.ty.kind == 'opaque' and v.ty.args[0] == 'ExcClass':
+            return ['QueueEmptyLib']       # the async driver's queue-empty exception class
         raise EngineError('cannot resolve exception class at line %d' % texpr.lineno)
 
     def ex_Try(self, s, st):
@@ -1757,6 +1809,7 @@ class Engine:
 
     def _loop_head(self, s, st, spec, ordn, idx):
         """inv-init obligations; havoc the loop frame; assume the invariant."""
+        self._pre_loop_locals[id(s)] = set(k for k in st.env if not k.startswith('__'))
         env0 = dict(st.env)
         if idx is not None:
             env0[spec.index or '_i'] = vint(0)
@@ -1774,7 +1827,7 @@ class Engine:
             else:
                 old = env.get(loc)
                 if old is None:
-                    raise EngineError('loop frame names unknown local %s' % loc)
+                    continue        # first assigned inside the loop: loop-local
                 env[loc] = self.fresh_like(old, loc, head)
         head.loopw = set()
         if idx is not None:
@@ -1953,9 +2006,12 @@ class Engine:
                                   % (self.cur_func, n))
             env[n] = self.fresh(self.typing.get(n, c.params[n]), n, st, inp=True)
         if a.vararg is not None:
-            env[a.vararg.arg] = self.fresh(c.params[a.vararg.arg], a.vararg.arg, st, inp=True)
+            env[a.vararg.arg] = self.fresh(self.typing.get(a.vararg.arg,
+                                                           c.params[a.vararg.arg]),
+                                           a.vararg.arg, st, inp=True)
         if a.kwarg is not None:
-            env[a.kwarg.arg] = self.fresh(c.params[a.kwarg.arg], a.kwarg.arg, st, inp=True)
+            env[a.kwarg.arg] = self.fresh(self.typing.get(a.kwarg.arg, c.params[a.kwarg.arg]),
+                                          a.kwarg.arg, st, inp=True)
         for n, v in c.env.items():
             env[n] = v if isinstance(v, V) else self.fresh(v, n, st, inp=True)
         st.env = env
@@ -1969,6 +2025,7 @@ class Engine:
             raise EngineError('no contract for %s' % qualname)
         self.cur_func = qualname
         self.cur_contract = c
+        self.cur_is_async = isinstance(node, ast.AsyncFunctionDef)
         self.number_loops(node)
         n0 = len(self.obls)
         union = [(n, t) for n, t in c.params.items() if isinstance(t, list)]
